@@ -11,7 +11,8 @@ from ..runner import Acc, h8, scratch_dir
 
 LEVEL = "exploration"
 RULE = (
-    "all well-formed relative patterns of up to L tokens over {a b . / * ? [ab] [!a] ** ${*n} ${*m}} "
+    "all well-formed relative patterns of up to L tokens (quick L=3 on trees with up to 2 entries; thorough L=4 on trees "
+    "with up to 2 entries and L=3 on trees with up to 3 entries) over {a b . / * ? [ab] [!a] ** ${*n} ${*m}} "
     "with each substitution set, on all directory trees with up to E entries over names "
     "{a b ab .a} (files and directories, nested), realized on tmpfs; the recorded set after "
     "NamedGlob.glob() is compared with a reference backtracking matcher and with the standard "
@@ -146,18 +147,20 @@ def only_by_negated_set(pattern, subs, paths):
 
 
 def jobs(tier, seed):
-    L = 3 if tier == "quick" else 4
-    E, depth = (2, 2) if tier == "quick" else (3, 2)
-    pats = patterns(L)
+    # quick: patterns of up to 3 tokens on trees of up to 2 entries;
+    # thorough: patterns of up to 4 tokens on trees of up to 2 entries, and patterns of up to 3
+    # tokens on trees of up to 3 entries (the full product of both maxima is about 1.5 hours)
+    groups = [(3, 2, 1)] if tier == "quick" else [(4, 2, 1), (3, 3, 2)]
     out = []
     chunk = 60 if tier == "quick" else 150
     subsets = SUBS[:3] if tier == "quick" else SUBS
-    for si, subs in enumerate(subsets):
-        for lo in range(0, len(pats), chunk):
-            batch = [p for p in pats[lo : lo + chunk] if si == 0 or names_in(p)]
-            if batch:
-                out.append({"pats": batch, "subs": subs, "E": E, "depth": depth,
-                            "dist": 1 if tier == "quick" else 2})
+    for L, E, dist in groups:
+        pats = patterns(L)
+        for si, subs in enumerate(subsets):
+            for lo in range(0, len(pats), chunk):
+                batch = [p for p in pats[lo : lo + chunk] if si == 0 or names_in(p)]
+                if batch:
+                    out.append({"pats": batch, "subs": subs, "E": E, "depth": 2, "dist": dist})
     return out
 
 
